@@ -67,6 +67,8 @@ fn real_main() -> i32 {
                 // a dead worker is itself an observation: write the announced case as replay
                 let case = prop.make(seed, *run, tier);
                 let v = runner::Violation::new("process-died", "crash", what.clone());
+                // minimise while a fresh process replaying the candidate still dies
+                let case = runner::shrink_crash(prop, &case, &v, tier, 60);
                 let path = runner::write_replay(prop.id(), seed, *run, &case, &v, tier, 0);
                 println!("VIOLATION property={} replay={}", prop.id(), path);
                 println!("  run={run} worker process died: {what}");
